@@ -141,7 +141,7 @@ pub fn universal(o: &SendObs, step: usize, out: &mut Vec<Finding>) -> bool {
     if let Err(d) = &o.lexer_progress {
         out.push(Finding::new(
             "C01.lexer_progress",
-            "tokenizer_no_progress",
+            if d.starts_with("tokenizer panicked") { "tokenizer_panicked" } else { "tokenizer_no_progress" },
             step,
             format!("{} on {:?}", d, B(o.bytes.clone())),
         ));
@@ -263,7 +263,11 @@ pub fn drive(trace: &Trace, stats: &mut Stats, h: &mut dyn StepHandler) -> Vec<F
             Step::Read { ctl } => world.exec_read(*ctl),
             Step::Hw(op) => {
                 let before = model.clone();
-                model.reg(op.reg).set_condition(op.value);
+                {
+                    let g = model.reg(op.reg);
+                    let t = op.target(g.cond);
+                    g.set_condition(t);
+                }
                 world.exec_hw(op);
                 stats.fault("F9_condition_change");
                 h.on_hw(&world, &before, &model, i, op, stats, &mut findings);
